@@ -237,7 +237,13 @@ pub fn gen_table(t: &mut Tape, name: &str, prefix: &str, allow_not_null: bool) -
         };
         cols.push((format!("{}{}", prefix, i), ty));
     }
-    let not_null = if allow_not_null && t.chance(1, 6) { Some(t.draw(ncols)) } else { None };
+    let mut not_null = if allow_not_null && t.chance(1, 6) { Some(t.draw(ncols)) } else { None };
+    // one modifier per column: a JSON TIMESTAMP / INTERVAL column needs CONVERT
+    if let Some(i) = not_null {
+        if matches!(cols[i].1, Ty::Ts | Ty::Iv) {
+            not_null = None;
+        }
+    }
     DataTable { name: name.to_string(), json, cols, not_null }
 }
 
